@@ -310,3 +310,17 @@ Qed.
 (* the view used by the correspondence check is the model's kept / dups *)
 Lemma model_view_spec l : model_view l = (map bid (kept l), dups l).
 Proof. reflexivity. Qed.
+
+(* a history of Filter calls on one instance: the result of the n-th call depends only on
+   the n-th input, whatever was remembered before *)
+Lemma history_stateless prev ls : run_history prev ls = map model_view ls.
+Proof. revert prev. induction ls as [|l r IH]; intros prev; simpl; auto. now rewrite IH. Qed.
+
+Lemma history_nth prev ls n l : nth_error ls n = Some l ->
+  nth_error (run_history prev ls) n = Some (map bid (kept l), dups l).
+Proof.
+  intros H. rewrite history_stateless, nth_error_map, H. reflexivity.
+Qed.
+
+Lemma filter_stateless_fact : filter_reads_no_previous_result = true.
+Proof. reflexivity. Qed.
